@@ -55,6 +55,8 @@ def run(ck: Checker, prog: Program, tier: str):
     ck.guard(_sg, ck, prog)
     ck.guard(_registry, ck, prog)
     ck.guard(_purity, ck, prog)
+    from .common import check_identity_comparisons as _cic
+    ck.guard(_cic, ck, prog, "C02.R1", "C02")
 
 
 def _purity(ck: Checker, prog: Program):
